@@ -9,6 +9,7 @@ import (
 	"net/http"
 	"strings"
 	"sync"
+	"time"
 
 	"github.com/notaryproject/notation-core-go/revocation"
 	corecrl "github.com/notaryproject/notation-core-go/revocation/crl"
@@ -191,6 +192,7 @@ func c12Scenarios(tier mc.Tier) []mc.Scenario {
 		}
 	}
 	// a certificate whose distribution points are [ldap, http] and one with a single https point: the documented shapes still hold
+	out = append(out, mc.Scenario{Name: "C12-self-issued-certificates-with-responders", Bound: -1, Expect: 12, Body: c12SelfIssued, Params: map[string]string{"chain": "[leaf named like its CA, roll-over CA, CA, root]", "entries": "3", "revoked position": "none / 0 / 1 / 2"}})
 	out = append(out, mc.Scenario{Name: "C12-long-chains", Bound: -1, Expect: 4 * 4 * 3, Body: c12LongChains, Params: map[string]string{"lengths": "9, 10, 12, 17", "shapes": "all with responder / none with sources / first eight without / alternating", "watchdog": "60s"}})
 	out = append(out, mc.Scenario{Name: "C12-repeated-distribution-point", Bound: -1, Expect: 9, Body: c12RepeatedPoint, Params: map[string]string{"chain": "2", "points": "[u, u, v]", "checksPerEntry": "2"}})
 	out = append(out, mc.Scenario{Name: "C12-unusual-url-spellings", Bound: -1, Expect: 4 * 4 * 3 * 3, Body: c12Spellings, Params: map[string]string{"chain": "2", "spellings": "HTTP:// responder, responder path with a space, HtTp:// point, point with :80"}})
@@ -723,6 +725,71 @@ func longChains(c *mc.Ctx, id string) {
 		}
 		if res[i] != nil && res[i].Result != want {
 			c.Fail(id+" "+entry+" positional result on a long chain", "length %d shape %s position %d: %s, want %s", n, shape, i, res[i].Result, want)
+			return
+		}
+	}
+}
+
+var (
+	c12SIOnce  sync.Once
+	c12SIChain []*pki.Cert
+)
+
+// c12SelfIssued: a chain with a key roll-over certificate (an intermediate that carries its issuer's name but another key) and a leaf
+// that carries its CA's name; every non-root certificate names a responder. Position, not name, says which certificate is the root:
+// each non-root certificate's responder is asked and its answer is that position's result.
+func c12SelfIssued(c *mc.Ctx) {
+	c12SIOnce.Do(func() {
+		root := pki.Issue(pki.RootTmpl("c12 si root"), pki.K("p256-a"), nil, nil)
+		old := pki.CATmpl("c12 rollover ca")
+		old.OCSP = []string{ocspURL(2, 0)}
+		caOld := pki.Issue(old, pki.K("p384-a"), root, nil)
+		nw := pki.CATmpl("c12 rollover ca") // same name as its issuer, new key
+		nw.OCSP = []string{ocspURL(1, 0)}
+		caNew := pki.Issue(nw, pki.K("p256-b"), caOld, nil)
+		lt := pki.LeafTmpl("c12 rollover ca") // a leaf that carries its CA's name
+		lt.OCSP = []string{ocspURL(0, 0)}
+		leaf := pki.Issue(lt, pki.K("p256-e"), caNew, nil)
+		c12SIChain = []*pki.Cert{leaf, caNew, caOld, root}
+	})
+	ch := c12SIChain
+	entry := []string{"validatecontext", "validate", "checkstatus"}[c.ChooseFree("entry", 3)]
+	revokedAt := c.ChooseFree("revoked-position", 4) - 1 // -1: all good
+	tr := &netsim.Transport{}
+	tr.Handler = func(r *netsim.Request, raw *http.Request) netsim.Answer {
+		src, ok := parseSource(r.URL)
+		if !ok || src.kind != "ocsp" || src.cert > 2 {
+			return netsim.Answer{Status: 404}
+		}
+		st := pki.OCSPGood
+		if src.cert == revokedAt {
+			st = pki.OCSPRevoked
+		}
+		iss := ch[src.cert+1]
+		return okResp(pki.ForgeOCSP(pki.OCSPSpec{Issuer: iss, Signer: iss.Key, Responder: iss, Singles: []pki.OCSPSingle{{Serial: ch[src.cert].X.SerialNumber, Status: st, RevokedAt: pki.Now.Add(-time.Hour), Reason: 1, NextUpdate: pki.Now.Add(24 * time.Hour)}}}))
+	}
+	chain := pki.X509s(ch)
+	res, err, pan := runEntry(entry, purposeCS, tr, chain)
+	c.Statef("self-issued chain, revoked position %d", revokedAt)
+	if pan != nil || err != nil || len(res) != 4 {
+		c.Fail("C12 valid chain with a self-issued intermediate not processed", "entry %s: panic=%v err=%v results=%d", entry, pan, err, len(res))
+		return
+	}
+	en := "validate"
+	if entry == "checkstatus" {
+		en = "checkstatus"
+	}
+	for _, why := range shapeViolations(chain, res, en) {
+		c.Fail("C12 "+entry+" result-shape (self-issued certificates): "+stripDigits(why), "%s", why)
+	}
+	for i := 0; i < 3; i++ {
+		want := result.ResultOK
+		if i == revokedAt {
+			want = result.ResultRevoked
+		}
+		c.Outcome("self-issued:" + want.String())
+		if res[i] == nil || res[i].Result != want {
+			c.Fail("C12 "+entry+" a non-root certificate that carries its issuer's name is not checked like any other", "position %d: got %v, its responder says %s", i, res[i], want)
 			return
 		}
 	}
